@@ -320,6 +320,44 @@ func C07(c *core.Ctx) error {
 		scns = append(scns, c07scn{id: "null package body, all at root", cfg: root2, files: map[string]string{"p/p.go": c07src, "q/q.go": c07q},
 			expect: []string{P + "|Exp|MockExp", P + "|Gen|MockGen", P + "|Inst|MockInst", P + "|RemoteInst2|MockRemoteInst2", P + "|RemoteInst|MockRemoteInst", P + "|unexp|mockunexp"}})
 	}
+	{ // source files with //line directives (ahead of the package clause, as goyacc writes them, and in the middle of a
+		// file) next to plain ones, and a configured package that has nothing but test files (whether its interfaces
+		// count is left open): the interfaces of every file of w are selected as usual, whichever package is parsed first
+		W, AO, ZO := core.ModPath+"/w", core.ModPath+"/a_only", core.ModPath+"/z_only"
+		testOnly := func(pk string) string {
+			return "package " + pk + "\n\nimport \"testing\"\n\ntype OnlyInTest interface{ X() }\n\nfunc TestX(t *testing.T) {}\n"
+		}
+		files := map[string]string{
+			"w/lex.go": "//line grammar.y:2\npackage w\n\ntype Lexer interface{ Lex() }\n",
+			"w/mid.go": "package w\n\ntype Before interface{ B() }\n\n//line other.y:10\ntype After interface{ A() }\n",
+			"w/z.go":   "package w\n\ntype Store interface{ S() }\n",
+			"a_only/x_test.go": testOnly("a_only"), "z_only/x_test.go": testOnly("z_only"),
+		}
+		open := map[string]bool{AO + "|OnlyInTest|MockOnlyInTest": true, ZO + "|OnlyInTest|MockOnlyInTest": true}
+		allW := []string{W + "|After|MockAfter", W + "|Before|MockBefore", W + "|Lexer|MockLexer", W + "|Store|MockStore"}
+		for _, mode := range []string{"all", "regex", "listed"} {
+			for _, with := range []string{"alone", "between test-only packages"} {
+				root := c07baseRoot(probe)
+				pk := core.M{}
+				exp := allW
+				switch mode {
+				case "all":
+					pk["config"] = core.M{"all": true}
+				case "regex":
+					pk["config"] = core.M{"include-interface-regex": "e"}
+				case "listed":
+					pk["interfaces"] = core.M{"Lexer": core.M{}, "After": core.M{}}
+					exp = []string{W + "|After|MockAfter", W + "|Lexer|MockLexer"}
+				}
+				pkgs := core.M{W: pk}
+				if with != "alone" {
+					pkgs[AO], pkgs[ZO] = core.M{"config": core.M{"all": true}}, core.M{"config": core.M{"all": true}}
+				}
+				root["packages"] = pkgs
+				scns = append(scns, c07scn{id: fmt.Sprintf("sources with //line directives, selection by %s, %s", mode, with), cfg: root, files: files, expect: exp, open: open})
+			}
+		}
+	}
 	// function-local types are never mocked (nor do they disturb the package-level ones)
 	for _, mode := range []string{"all", "listed", "regex"} {
 		root := c07baseRoot(probe)
